@@ -175,8 +175,12 @@ def automaton_has_path(aut, L):
     return t1 in cur
 
 
-def graph_poly(graph):
-    """path polynomial of a pytenet OpGraph by own traversal (memoised suffix polynomials)"""
+def graph_poly(graph, charges=False):
+    """path polynomial of a pytenet OpGraph by own traversal (memoised suffix polynomials);
+    charges=True: refined polynomial, keys (operator ids, node charges along the path) - the operator together with
+    its bond quantum numbers"""
+    if charges:
+        return _graph_poly_q(graph)
     t0, t1 = graph.nid_terminal
     nnodes = len(graph.nodes)
     memo = {}
@@ -214,6 +218,42 @@ def graph_poly(graph):
     if len(lens) > 1:
         raise Malformed(f'paths of different lengths {sorted(lens)} between the terminals')
     return p
+
+
+def _graph_poly_q(graph):
+    t0, t1 = graph.nid_terminal
+    nnodes = len(graph.nodes)
+    memo = {}
+
+    def rec(nid, depth):
+        if depth > nnodes + 1:
+            raise Malformed('cycle or path longer than the number of nodes')
+        if nid not in graph.nodes:
+            raise Malformed(f'node {nid} referenced but missing')
+        q = graph.nodes[nid].qnum
+        if nid == t1:
+            return {((), (q,)): Fraction(1)}
+        if nid in memo:
+            return memo[nid]
+        p = {}
+        for eid in graph.nodes[nid].eids[1]:
+            if eid not in graph.edges:
+                raise Malformed(f'edge {eid} referenced by node {nid} but missing')
+            edge = graph.edges[eid]
+            sub = rec(edge.nids[1], depth + 1)
+            for oid, c in edge.opics:
+                fc = frac(c)
+                for (w, qs), cw in sub.items():
+                    k = ((int(oid),) + w, (q,) + qs)
+                    p[k] = p.get(k, 0) + fc * cw
+        memo[nid] = p
+        return p
+
+    return rec(t0, 0)
+
+
+def pq_flip(p):
+    return {(tuple(reversed(w)), tuple(reversed(qs))): c for (w, qs), c in p.items()}
 
 
 def graph_levels(graph):
@@ -530,10 +570,11 @@ def rand_chain_list(rng, L, nmax, zero_coeffs=True):
 
 
 OPICS_MENU = ([[1, 1.0]], [[2, 1.0]], [[1, -1.0]], [[0, 1.0]], [[1, 2.0]], [[1, 1.0], [2, -1.0]],
-              [[1, 0.5], [2, 0.5]], [[2, -1.0]], [[0, 1.0], [1, 1.0]], [[2, 0.5]])
+              [[1, 0.5], [2, 0.5]], [[2, -1.0]], [[0, 1.0], [1, 1.0]], [[2, 0.5]],
+              [[1, 1.0], [1, 1.0]], [[2, 1.0], [1, 0.5], [2, -1.0]])      # repeated ids inside one operator sum (accumulate / cancel)
 
 
-def rand_layered_graph(rng, length, wmax, maxpar=2, dangling=False, menu_size=None, charges=(0, 1)):
+def rand_layered_graph(rng, length, wmax, maxpar=2, dangling=False, menu_size=None, charges=(0, 1), pdens=None):
     """random small consistent layered graph descriptor: canonical ids (nodes numbered layer by layer from 0,
     edges from 0), every node on a path between the terminals unless dangling=True"""
     widths = [1] + [int(rng.integers(1, wmax + 1)) for _ in range(length - 1)] + [1]
@@ -549,7 +590,7 @@ def rand_layered_graph(rng, length, wmax, maxpar=2, dangling=False, menu_size=No
             lay.append(nid)
             nid += 1
         layers.append(lay)
-    pdens = float(rng.choice([0.35, 0.6, 0.85]))
+    pdens = float(rng.choice([0.35, 0.6, 0.85])) if pdens is None else pdens
     edges = []
     eid = 0
     for l in range(length):
@@ -707,7 +748,8 @@ def rand_automaton(rng, nextra, Lmax=5, letters=(0, 1, 2)):
 
     def opics():
         k = 1 + int(rng.random() < 0.3)
-        return [[int(o), float(rng.choice(COEFFS))] for o in rng.choice(letters, size=k, replace=False)]
+        # occasionally the same id twice in one operator sum (OpGraphEdge accumulates the coefficients)
+        return [[int(o), float(rng.choice(COEFFS))] for o in rng.choice(letters, size=k, replace=bool(rng.random() < 0.25))]
 
     for u in nids:
         for v in nids:
